@@ -79,6 +79,27 @@ def shaped_calls(rnd):
     calls.append({'id': 'sem.eval', 'api': 'semantic_analysis', 'extra': {'external_routines': [ROUTINE]},
                   'script': 'R <- eval(SQL_1(DS_1) language "SQL" returns dataset {identifier<integer> Id_1, measure<number> Me_1});',
                   'raw': {'ds': {'datasets': [S1]}}})
+    # other accepted spellings of the structure dictionary; each call is made TWICE with the same objects
+    legacy = {'datasets': [{'name': 'DS_1', 'DataStructure': [{'name': 'Id_1', 'data_type': 'Integer', 'role': 'Identifier', 'nullable': False},
+                                                              {'name': 'Me_1', 'data_type': 'Number', 'role': 'Measure', 'nullable': True},
+                                                              {'name': 'At_1', 'data_type': 'String', 'role': 'Attribute', 'nullable': True}]}],
+              'scalars': [{'name': 'sc_1', 'data_type': 'Integer'}]}
+    byref = {'structures': [{'name': 'STR_1', 'components': [{'name': 'Id_1', 'type': 'Integer', 'role': 'Identifier', 'nullable': False},
+                                                             {'name': 'Me_1', 'type': 'Number', 'role': 'Measure', 'nullable': True},
+                                                             {'name': 'At_1', 'type': 'String', 'role': 'ViralAttribute', 'nullable': True, 'description': 'a viral attribute'}]}],
+             'datasets': [{'name': 'DS_1', 'structure': 'STR_1', 'description': 'by reference'}]}
+    nonull = {'datasets': [{'name': 'DS_1', 'DataStructure': [{'name': 'Id_1', 'type': 'Integer', 'role': 'Identifier'},
+                                                              {'name': 'Me_1', 'type': 'Number', 'role': 'Measure'}, {'name': 'At_1', 'type': 'String', 'role': 'Attribute'}]}]}
+    for vn, dsv in (('legacy-data_type', legacy), ('structure-by-reference', byref), ('no-nullable-key', nonull)):
+        for api, sc in (('run', 'R <- DS_1 * 2;'), ('semantic_analysis', 'R <- DS_1 * 2;'), ('validate_dataset', None), ('run', 'R <- DS_1 + "a";')):
+            call = {'id': '%s.%s.%s' % ({'run': 'run', 'semantic_analysis': 'sem', 'validate_dataset': 'vd'}[api], vn, 'ok' if sc != 'R <- DS_1 + "a";' else 'err'),
+                    'api': api, 'raw': {'ds': dsv, 'dps': {'DS_1': good1}}, 'repeat': 2}
+            if sc:
+                call['script'] = sc
+            calls.append(call)
+    for tn in ('valid', 'missing-nullable-column', 'bom-column', 'empty-string-number', 'duplicate-ids'):
+        calls.append({'id': 'run2.%s' % tn, 'api': 'run', 'script': 'R <- DS_1 * 2;', 'raw': {'ds': {'datasets': [S1]}, 'dps': {'DS_1': tables[tn]}}, 'repeat': 2})
+        calls.append({'id': 'vd2.%s' % tn, 'api': 'validate_dataset', 'raw': {'ds': {'datasets': [S1]}, 'dps': {'DS_1': tables[tn]}}, 'repeat': 2})
     for fmt in ('csv', 'parquet'):
         calls.append({'id': 'run.folder.%s' % fmt, 'api': 'run', 'script': 'R <- DS_1 * 2; S := 1 + 1;', 'folder': fmt,
                       'raw': {'ds': {'datasets': [S1]}, 'dps': {'DS_1': good1}}})
@@ -123,6 +144,9 @@ def main(chk):
         v = verd[u['id']]
         byapi.setdefault(u['api'], {'ok': 0, 'failed': 0})['ok' if u['outcome']['kind'] == 'ok' else 'failed'] += 1
         distinct.add(json.dumps([u['api'], sorted(u['before']), u['outcome']['kind'], u['outcome']['code'], u['id'].split('.')[1] if not u['id'].startswith(('g', 'c:')) else '']))
+        if u.get('repeat_same_outcome') is False and not v['c22']:
+            chk.violation('%s second call differs | %s' % (u['api'], u['id']), 'calling %s twice with the same argument objects: first %s, then %s' % (u['api'], u['first_outcome'], u['outcome']),
+                          {'api': u['api'], 'script': u.get('text')})
         if v['c22']:
             shape = u['id'] if not u['id'].startswith(('g', 'c:')) else ('generated' if u['id'].startswith('g') else 'corpus')
             chk.violation('%s %s | %s | outcome=%s' % (u['api'], v['c22'], shape, u['outcome']['kind']), v['c22'],
